@@ -26,6 +26,9 @@ pub enum BOp {
     AndLst(Vec<u16>),
     OrLst(Vec<u16>),
     NewVar(bool),
+    /// compile_cnf of a small clause list over the builder's current variables (raw variable bytes are scaled
+    /// to the current variable count): a diagram that enters the builder by another route than ite
+    Cnf(Vec<Vec<(u8, bool)>>),
 }
 
 impl BOp {
@@ -46,6 +49,7 @@ impl BOp {
             BOp::AndLst(..) => "and_lst",
             BOp::OrLst(..) => "or_lst",
             BOp::NewVar(..) => "new_var",
+            BOp::Cnf(..) => "compile_cnf",
         }
     }
 }
@@ -120,6 +124,7 @@ pub fn bop_strategy() -> impl Strategy<Value = BOp> {
         1 => prop_oneof![3 => proptest::collection::vec(idx_strategy(), 0..5), 1 => proptest::collection::vec(idx_strategy(), 5..13)].prop_map(BOp::AndLst),
         1 => prop_oneof![3 => proptest::collection::vec(idx_strategy(), 0..5), 1 => proptest::collection::vec(idx_strategy(), 5..13)].prop_map(BOp::OrLst),
         1 => any::<bool>().prop_map(BOp::NewVar),
+        1 => proptest::collection::vec(proptest::collection::vec((any::<u8>(), any::<bool>()), 1..=3), 1..=4).prop_map(BOp::Cnf),
     ]
 }
 
@@ -188,7 +193,15 @@ impl<'a, T: IteTable<'a, BddPtr<'a>> + Default> BddRun<'a, T> {
     pub fn step(&mut self, op: &BOp) -> Option<StepOut> {
         let b = self.b;
         let (ptr, tt, args): (BddPtr<'a>, Tt, Vec<usize>) = match op {
-            BOp::Lit(..) | BOp::Cond(..) | BOp::Exists(..) | BOp::Compose(..) if self.n == 0 => return None,
+            BOp::Lit(..) | BOp::Cond(..) | BOp::Exists(..) | BOp::Compose(..) | BOp::Cnf(..) if self.n == 0 => return None,
+            BOp::Cnf(cl) => {
+                let mapped: Vec<Vec<(usize, bool)>> = cl.iter().map(|c| c.iter().map(|(v, p)| (self.v(*v), *p)).collect()).collect();
+                let lits: Vec<Vec<rsdd::repr::Literal>> =
+                    mapped.iter().map(|c| c.iter().map(|(v, p)| rsdd::repr::Literal::new(VarLabel::new_usize(*v), *p)).collect()).collect();
+                let cnf = rsdd::repr::Cnf::new(&lits);
+                let t = mapped.iter().fold(Tt::TRUE, |acc, c| acc.and(c.iter().fold(Tt::FALSE, |a, (v, p)| a.or(Tt::lit(*v, *p)))));
+                (b.compile_cnf(&cnf), t, vec![])
+            }
             BOp::Lit(v, p) => {
                 let v = self.v(*v);
                 (b.var(VarLabel::new_usize(v), *p), Tt::lit(v, *p), vec![])
